@@ -12,5 +12,5 @@ cd /verif
 for p in "$@"; do
   YV_SRC="$S" ./check $p $TIER > "$S/out_$p.log" 2>&1; rc=$?
   echo "$p rc=$rc $(head -1 "$S/out_$p.log" | cut -c1-120)"
-  grep -E "^  mech=" "$S/out_$p.log" | cut -c1-220 | sort | uniq -c | sort -rn | head -3
+  grep -aE "^  mech=" "$S/out_$p.log" | cut -c1-220 | sort | uniq -c | sort -rn | head -3
 done
